@@ -211,6 +211,7 @@ type recorder struct {
 	have   map[string]int
 	active int32
 	delay  time.Duration
+	gate   chan struct{}
 }
 
 func (r *recorder) add(id int64, canon string, fctx frugal.FContext) {
@@ -222,6 +223,9 @@ func (r *recorder) add(id int64, canon string, fctx frugal.FContext) {
 	r.mu.Unlock()
 	if r.delay > 0 {
 		time.Sleep(r.delay)
+	}
+	if r.gate != nil {
+		<-r.gate // backpressure sequences hold the handler until the gate is opened
 	}
 	atomic.AddInt32(&r.active, -1)
 }
@@ -333,7 +337,7 @@ func (q *seqRun) count(k string, n int) { q.res.Counters[k] += n }
 func (q *seqRun) vio(sig, what string, witness map[string]interface{}) {
 	witness["spec"] = q.spec
 	witness["steps"] = string(q.letters)
-	witness["steps_legend"] = "shared mode: a b c = valid message on the topic of subscription 0 1 2, digits 0 1 2 = its sentinel; otherwise: V valid, S sentinel, F follow-up sentinel, | Unsubscribe(A), lower case = malformed kind (s short-frame l len4 b bad-version n neg-header-size h huge-header-size t tiny-header-size p bad-pair-size o no-opid w wrong-op c truncated g garbage x wrong-struct), digits = foreign (1 other-op 2 other-user 3 prefix-topic 4 extension-topic)"
+	witness["steps_legend"] = "shared mode: a b c = valid message on the topic of subscription 0 1 2, digits 0 1 2 = its sentinel; P = frame published through the subscriber's own connection (backpressure mode); otherwise: V valid, S sentinel, F follow-up sentinel, | Unsubscribe(A), lower case = malformed kind (s short-frame l len4 b bad-version n neg-header-size h huge-header-size t tiny-header-size p bad-pair-size o no-opid w wrong-op c truncated g garbage x wrong-struct), digits = foreign (1 other-op 2 other-user 3 prefix-topic 4 extension-topic)"
 	q.res.Vios = append(q.res.Vios, Vio{Sig: "C07:" + q.spec.Broker + ":" + sig, What: what, Witness: witness})
 }
 
@@ -363,6 +367,9 @@ func shapeOf(s *Spec) string {
 	}
 	if s.Probe != "" {
 		fl += "+probe"
+	}
+	if s.Mode == "backpressure" && s.Probe == "" {
+		fl += "+backpressure"
 	}
 	op := s.Op
 	if s.Mode == "shared" && s.Probe == "" {
@@ -808,6 +815,7 @@ func (q *seqRun) settle(x *subscriber, phase int) (string, string) {
 	quiet := 250*time.Millisecond + 4*x.rec.delay
 	var followups []*msg
 	var firstFollowup time.Time
+	deadlockSeen := false
 	for {
 		if len(q.missing(x)) == 0 {
 			return "complete", ""
@@ -838,6 +846,16 @@ func (q *seqRun) settle(x *subscriber, phase int) (string, string) {
 		if len(ws) == 0 {
 			return "dead", text
 		}
+		if stompAckDeadlock(parseDump(text), x) {
+			// seen in two dumps a quiet period apart with no handler invocation
+			// in between: the cycle cannot resolve itself
+			if deadlockSeen {
+				return "deadlock", text
+			}
+			deadlockSeen = true
+			continue
+		}
+		deadlockSeen = false
 		idle := atomic.LoadInt32(&x.rec.active) == 0
 		for _, w := range ws {
 			if !parkedIn(w, x.workerFn) {
@@ -921,6 +939,10 @@ func (q *seqRun) reportMissing(x *subscriber, status, dump string) {
 		q.res.Stalled = true
 		return
 	}
+	if status == "deadlock" {
+		q.vioDeadlock(x, dump)
+		return
+	}
 	first := miss[0]
 	w := map[string]interface{}{
 		"subscriber": x.name, "status": status, "missing_count": len(miss), "required_count": len(q.required(x)),
@@ -949,6 +971,47 @@ func (q *seqRun) reportMissing(x *subscriber, status, dump string) {
 	}
 	sort.Strings(ks)
 	q.pending = append(q.pending, pendingMissing{x: x, status: status, witness: w, kinds: ks, missing: len(miss), required: len(q.required(x))})
+}
+
+// stompAckDeadlock recognises the wait cycle "subscriber's processMessages
+// parked sending a frame (the ACK) into the connection's full write channel"
+// <-> "go-stomp's processLoop (the only reader of that channel) parked
+// forwarding a MESSAGE towards the subscription" <-> "the subscription's
+// readLoop parked on the full Subscription.C that only processMessages reads".
+func stompAckDeadlock(gs []gor, x *subscriber) bool {
+	worker, loop, sub := false, false, false
+	// any subscription of the sequence (they may share the connection; one
+	// sequence runs at a time in this process)
+	for _, g := range gs {
+		if !strings.HasPrefix(g.State, "chan send") {
+			continue
+		}
+		inSend, inWorker := false, false
+		for _, f := range g.Funcs {
+			inSend = inSend || strings.Contains(f, "stomp.(*Conn).sendFrame")
+			inWorker = inWorker || strings.Contains(f, x.workerFn)
+		}
+		worker = worker || (inSend && inWorker)
+	}
+	for _, g := range gs {
+		if !strings.HasPrefix(g.State, "chan send") || len(g.Funcs) == 0 {
+			continue
+		}
+		if strings.Contains(g.Funcs[0], "stomp.processLoop") {
+			loop = true
+		}
+		if strings.Contains(g.Funcs[0], "stomp.(*Subscription).readLoop") {
+			sub = true
+		}
+	}
+	return worker && loop && sub
+}
+
+func (q *seqRun) vioDeadlock(x *subscriber, dump string) {
+	miss := q.missing(x)
+	w := map[string]interface{}{"subscriber": x.name, "logged": x.rec.length(), "missing_count": len(miss), "required_count": len(q.required(x)),
+		"goroutines": grep(dump, "fStompSubscriberTransport", "stomp.processLoop", "stomp.(*Subscription).readLoop")}
+	q.vio("subscriber-deadlock:ack-send-vs-message-forward", fmt.Sprintf("subscriber %s stopped invoking its handler for good (%d of %d valid messages missing): processMessages is parked sending an ACK into the connection's full write channel while go-stomp's processLoop, the only reader of that channel, is parked forwarding a MESSAGE to the full Subscription.C that only processMessages reads", x.name, len(miss), len(q.required(x))), w)
 }
 
 type pendingMissing struct {
@@ -1172,6 +1235,8 @@ func runSeq(b *bus, s *Spec) *Result {
 	q.topic = q.topicOf(s.Op, s.User)
 	if s.Mode == "shared" && s.Probe == "" {
 		q.runShared()
+	} else if s.Mode == "backpressure" && s.Probe == "" {
+		q.runBackpressure()
 	} else {
 		q.run()
 	}
@@ -1230,6 +1295,187 @@ func (q *seqRun) waitBrokerSubscriptions(tapTopics []string, xs []*subscriber) b
 		}
 	}
 	return true
+}
+
+// runBackpressure (STOMP): the subscriber's connection is also used by a
+// publisher (one stomp.Conn for both factories of a provider, the usual set-up).
+// The handler is held at its first invocation while N messages arrive, so the
+// client's inbound path fills up; 20 frames are then published through the
+// same connection; then the handler is released.  Every message must still be
+// delivered exactly once.
+func (q *seqRun) runBackpressure() {
+	s := q.spec
+	var err error
+	for _, lp := range []**link{&q.pubL, &q.aL, &q.tapL} {
+		if *lp, err = q.bus.connect(s.Broker); err != nil {
+			q.inconclusive("broker connection failed: " + err.Error())
+			return
+		}
+	}
+	if !q.openPublishers() {
+		return
+	}
+	user2 := s.User + "2"
+	t2 := q.topicOf("Num", user2)
+	if q.topic == "" || t2 == "" {
+		q.inconclusive("the emitted publisher did not publish on the capture transport")
+		return
+	}
+	if err := q.startTap(); err == nil {
+		err = q.startTapOn(t2)
+	}
+	if err != nil {
+		q.inconclusive("tap: " + err.Error())
+		return
+	}
+	provA := q.providerFor(q.aL)
+	if q.A, err = q.subscribeVia("A", provA, s.Op, s.User, 0); err != nil {
+		q.inconclusive("Subscribe(A): " + err.Error())
+		return
+	}
+	gate := make(chan struct{})
+	q.A.rec.gate = gate
+	opened := false
+	open := func() {
+		if !opened {
+			opened = true
+			close(gate)
+		}
+	}
+	defer open()
+	co := mainsvc.NewEventsPublisher(provA) // publisher on the subscriber's connection
+	if err := co.Open(); err != nil {
+		q.inconclusive("publisher Open: " + err.Error())
+		return
+	}
+	if !q.waitBrokerSubscriptions([]string{q.topic, t2}, []*subscriber{q.A}) {
+		return
+	}
+	for i := 0; i < s.N; i++ {
+		if _, err := q.publishOnTopic("valid", 1); err != nil {
+			q.inconclusive("publish failed: " + err.Error())
+			return
+		}
+	}
+	if !q.waitTap() {
+		q.inconclusive("the raw tap subscriber did not see the burst")
+		return
+	}
+	// the broker has queued the whole burst for A; wait until the handler is
+	// held and the connection's dispatcher is parked on the full subscription
+	parked := false
+	for deadline := time.Now().Add(3 * time.Second); time.Now().Before(deadline) && !parked; time.Sleep(2 * time.Millisecond) {
+		if atomic.LoadInt32(&q.A.rec.active) == 0 {
+			continue
+		}
+		for _, g := range parseDump(rawDump()) {
+			if strings.HasPrefix(g.State, "chan send") && len(g.Funcs) > 0 && strings.Contains(g.Funcs[0], "stomp.processLoop") {
+				parked = true
+			}
+		}
+	}
+	if parked {
+		q.count("backpressure_dispatcher_parked_on_full_subscription", 1)
+	}
+	// 20 frames through the subscriber's own connection (prepared here; the
+	// goroutine only calls the emitted publisher)
+	type item struct {
+		ctx frugal.FContext
+		t   *base.Thing
+	}
+	var items []item
+	for i := 0; i < 20; i++ {
+		m := q.newMsg("foreign", "co-published-on-the-subscribers-connection", 1)
+		q.letters = append(q.letters, 'P')
+		items = append(items, item{frugal.NewFContext(m.Cid), genThing(q.rng, int32(m.ID))})
+	}
+	done := make(chan int, 1)
+	go func() {
+		n := 0
+		for _, it := range items {
+			if co.PublishNum(it.ctx, user2, it.t) == nil {
+				n++
+			}
+		}
+		done <- n
+	}()
+	published := -1
+	select {
+	case published = <-done:
+	case <-time.After(time.Second):
+	}
+	open()
+	seen := false
+	lastDump := time.Now()
+	for published < 0 {
+		select {
+		case published = <-done:
+		case <-time.After(250 * time.Millisecond):
+			text := rawDump()
+			if stompAckDeadlock(parseDump(text), q.A) {
+				if seen {
+					q.vioDeadlock(q.A, text)
+					q.aborted = true
+					return
+				}
+				seen = true
+			} else {
+				seen = false
+			}
+		}
+	}
+	q.onSubject += int64(published)
+	q.count("co_published_on_subscriber_connection", published)
+	if published != len(items) {
+		q.inconclusive(fmt.Sprintf("only %d of %d publishes through the subscriber's connection succeeded", published, len(items)))
+		return
+	}
+	for i := 0; i < s.K; i++ {
+		if _, err := q.publishOnTopic("valid", 1); err != nil {
+			q.inconclusive("publish failed: " + err.Error())
+			return
+		}
+	}
+	if _, err := q.publishOnTopic("sentinel", 1); err != nil {
+		q.inconclusive("publish failed: " + err.Error())
+		return
+	}
+	// the frames published through A's connection reach the broker only if
+	// that connection's write path keeps moving: watch for the wait cycle
+	// while waiting for the tap
+	seen = false
+	for deadline := time.Now().Add(waitBound); atomic.LoadInt64(&q.tapCount) < q.onSubject; time.Sleep(time.Millisecond) {
+		if time.Now().After(deadline) {
+			q.inconclusive("the raw tap subscribers did not see everything published")
+			return
+		}
+		if time.Since(lastDump) < 250*time.Millisecond {
+			continue
+		}
+		lastDump = time.Now()
+		text := rawDump()
+		if !stompAckDeadlock(parseDump(text), q.A) {
+			seen = false
+			continue
+		}
+		if seen {
+			q.vioDeadlock(q.A, text)
+			q.aborted = true
+			return
+		}
+		seen = true
+	}
+	if st, dump := q.settle(q.A, 1); st != "complete" {
+		if st == "inconclusive" {
+			q.inconclusive(fmt.Sprintf("subscriber A did not log %d required messages within %v although its workers are alive: %v", len(q.missing(q.A)), waitBound, grepShort(dump, q.A.workerFn)))
+			return
+		}
+		q.reportMissing(q.A, st, dump)
+		q.aborted = true
+		return
+	}
+	q.count("backpressure_sequences_completed", 1)
+	q.count("sequences_completed", 1)
 }
 
 // runShared: several live subscriptions through ONE scope provider.
@@ -1294,6 +1540,10 @@ func (q *seqRun) runShared() {
 			case "complete":
 			case "inconclusive":
 				q.inconclusive(fmt.Sprintf("subscription %s did not log %d required messages within %v although its workers are alive: %v", x.name, len(q.missing(x)), waitBound, grepShort(dump, x.workerFn)))
+				return false
+			case "deadlock":
+				q.vioDeadlock(x, dump)
+				q.aborted = true
 				return false
 			default:
 				miss := q.missing(x)
